@@ -45,9 +45,15 @@ static std::string jistrips(const int *p, int n, int d){
     for(int i=0; i<n; i++){ if (i) s += ","; s += "["; for(int j=0; j<d; j++){ if (j) s += ","; s += std::to_string(p[i*d+j]); } s += "]"; }
     return s + "]";
 }
+// loaded values: token values are integers; anything else (inferred values, garbage) is logged as one sentinel integer so that the
+// comparison with a token in TLC is a well-typed mismatch instead of an evaluation error
+static std::string jval(double v){
+    if (std::isfinite(v) && std::floor(v) == v && std::fabs(v) < 2.0e9) return std::to_string((long long) v);
+    return "-987654321";
+}
 static std::string jdstrips(const double *p, int n, int d){
     std::string s = "[";
-    for(int i=0; i<n; i++){ if (i) s += ","; s += "["; for(int j=0; j<d; j++){ if (j) s += ","; s += jnum(p[i*d+j]); } s += "]"; }
+    for(int i=0; i<n; i++){ if (i) s += ","; s += "["; for(int j=0; j<d; j++){ if (j) s += ","; s += jval(p[i*d+j]); } s += "]"; }
     return s + "]";
 }
 static std::string jdvec(std::vector<double> const &v){ std::string s = "["; for(size_t i=0; i<v.size(); i++){ if (i) s += ","; s += jnum(v[i]); } return s + "]"; }
@@ -106,6 +112,7 @@ static std::vector<double> const& nodes1d(TasmanianSparseGrid const &g){
 // ---------------------------------------------------------------- object slots
 struct Slot{
     TasmanianSparseGrid g;
+    std::set<std::vector<int>> delivered;   // samples delivered since beginConstruction() (loaded or parked): a second delivery is outside the contract
     int obase = 0;      // a copy of the outputs [b, e) keeps the token values of the source: output k of the copy is output b + k of the scenario
 };
 static int cur_obase = 0;
@@ -981,7 +988,7 @@ int main(int argc, char **argv){
             if (scen > 0) fprintf(out, "{\"e\":\"End\"}\n");
             std::string label; ls >> label; scen++; step = 0; skip_rest = false; pending.clear();
             tok_salt = 0; ls >> tok_salt; if (tok_salt < 0 || tok_salt > 95) tok_salt = 0;
-            for(auto &s : slots){ s.g = TasmanianSparseGrid(); s.obase = 0; }
+            for(auto &s : slots){ s.g = TasmanianSparseGrid(); s.obase = 0; s.delivered.clear(); }
             fprintf(out, "{\"e\":\"Reset\",\"scen\":%s,\"salt\":%d}\n", jstr(label).c_str(), tok_salt);
             continue;
         }
@@ -1020,6 +1027,7 @@ int main(int argc, char **argv){
             // macro: deliver every point of a fixed target grid (same family / rule / order, level-type depth `depth`) that is not loaded yet,
             // in a seeded random order and in batches of 1..maxbatch points -- whether or not the library proposed those points
             int epoch, depth, maxbatch; unsigned seed; ls >> epoch >> depth >> seed >> maxbatch;
+            int count = 0, candevery = 0; ls >> count >> candevery;     // optional: deliver only `count` points (0 = all); a candidate request after every `candevery` deliveries
             std::vector<std::string> gen_lines;
             if (!g.empty() && g.getNumOutputs() > 0 && g.isUsingConstruction()){
                 int d = g.getNumDimensions();
@@ -1031,7 +1039,7 @@ int main(int argc, char **argv){
                     else if (g.isLocalPolynomial()) t.makeLocalPolynomialGrid(d, 1, depth, g.getOrder(), g.getRule());
                     else if (g.isWavelet()) t.makeWaveletGrid(d, 1, depth, g.getOrder());
                 }catch(std::exception &){ }
-                std::set<std::vector<int>> have;
+                std::set<std::vector<int>> have = slots[o].delivered;
                 const int *li = g.verifLoadedIndexes(); int nl0 = g.getNumLoaded();
                 for(int i=0; li != nullptr && i<nl0; i++) have.insert(std::vector<int>(li + (size_t) i * d, li + (size_t) (i + 1) * d));
                 std::vector<std::vector<int>> pts;
@@ -1042,14 +1050,17 @@ int main(int argc, char **argv){
                 }
                 std::mt19937 gen(seed);
                 std::shuffle(pts.begin(), pts.end(), gen);
-                size_t i = 0;
+                if (count > 0 && (size_t) count < pts.size()) pts.resize((size_t) count);
+                size_t i = 0; int ncalls = 0;
                 while(i < pts.size()){
                     size_t b = 1 + (size_t) (gen() % (unsigned) std::max(maxbatch, 1));
                     b = std::min(b, pts.size() - i);
                     std::string l2 = std::string(o == 2 ? "@2 " : "") + "loadc " + std::to_string(epoch) + " " + std::to_string(b);
                     for(size_t k=0; k<b; k++) for(int v : pts[i + k]) l2 += " " + std::to_string(v);
                     gen_lines.push_back(l2);
-                    i += b;
+                    i += b; ncalls++;
+                    if (candevery > 0 && ncalls % candevery == 0 && i < pts.size())
+                        gen_lines.push_back(std::string(o == 2 ? "@2 " : "") + ((g.isLocalPolynomial() || g.isWavelet()) ? "candl -1 -1 classic 0" : "cand level 0 0 0"));
                 }
             }
             for(auto it = gen_lines.rbegin(); it != gen_lines.rend(); ++it) pending.push_front(*it);
@@ -1068,6 +1079,21 @@ int main(int argc, char **argv){
                     auto aw = rdivec(ls); auto ll = rdivec(ls);
                     double alpha = 0, beta = 0; if (fam == "global") ls >> alpha >> beta;
                     A("type", jstr(type)); A("rule", jstr(rule)); A("aw", jivec(aw)); A("ll", jivec(ll)); A("alpha", jnum(alpha)); A("beta", jnum(beta));
+                    if (fam == "global" && rule == "custom-tabulated"){
+                        // a custom rule file holding the Gauss-Legendre tables (level l: l+1 nodes, exactness 2l+1): Rules1D.tla treats it as that rule
+                        std::string fn = tmpdir + "/custom_" + std::to_string(getpid()) + ".tbl";
+                        {   std::ofstream cf(fn); cf.precision(17); const int nl = 8;
+                            cf << "description: Gauss-Legendre tables written by the verification driver\nlevels: " << nl << "\n";
+                            for(int l=0; l<nl; l++) cf << (l + 1) << " " << (2 * l + 1) << "\n";
+                            for(int l=0; l<nl; l++){
+                                TasmanianSparseGrid q; q.makeGlobalGrid(1, 0, l, type_level, rule_gausslegendre);
+                                auto w = q.getQuadratureWeights(); auto x = q.getPoints();
+                                for(size_t i=0; i<w.size(); i++) cf << std::scientific << w[i] << " " << x[i] << " ";
+                                cf << "\n";
+                            } }
+                        try{ g.makeGlobalGrid(d, outs, depth, IO::getDepthTypeString(type), rule_customtabulated, aw, alpha, beta, fn.c_str(), ll); }catch(...){ unlink(fn.c_str()); throw; }
+                        unlink(fn.c_str());
+                    }else
                     if (fam == "global") g.makeGlobalGrid(d, outs, depth, IO::getDepthTypeString(type), IO::getRuleString(rule), aw, alpha, beta, nullptr, ll);
                     else if (fam == "sequence") g.makeSequenceGrid(d, outs, depth, IO::getDepthTypeString(type), IO::getRuleString(rule), aw, ll);
                     else g.makeFourierGrid(d, outs, depth, IO::getDepthTypeString(type), aw, ll);
@@ -1139,8 +1165,8 @@ int main(int argc, char **argv){
                 else g.setSurplusRefinement(tol, IO::getTypeRefinementString(crit), output, ll);
             }else if (cmd == "clear"){ g.clearRefinement();
             }else if (cmd == "merge"){ g.mergeRefinement();
-            }else if (cmd == "begin"){ g.beginConstruction();
-            }else if (cmd == "finish"){ g.finishConstruction();
+            }else if (cmd == "begin"){ if (!g.isUsingConstruction()) slots[o].delivered.clear(); g.beginConstruction();
+            }else if (cmd == "finish"){ g.finishConstruction(); slots[o].delivered.clear();
             }else if (cmd == "cand" || cmd == "candl"){
                 std::vector<double> x;
                 if (cmd == "cand"){
@@ -1170,7 +1196,7 @@ int main(int argc, char **argv){
                 int epoch, n; ls >> epoch >> n; int d = g.getNumDimensions();
                 std::vector<int> idx((size_t) n * d); for(auto &e : idx) ls >> e;
                 {   // a sample for a point that is already loaded is outside the contract (duplicate delivery): not delivered
-                    std::set<std::vector<int>> have;
+                    std::set<std::vector<int>> have = slots[o].delivered;
                     const int *li = g.verifLoadedIndexes(); int nl0 = (g.getNumOutputs() > 0) ? g.getNumLoaded() : g.getNumPoints();
                     for(int i=0; li != nullptr && i<nl0; i++) have.insert(std::vector<int>(li + (size_t) i * d, li + (size_t) (i + 1) * d));
                     std::vector<int> kept;
@@ -1184,6 +1210,7 @@ int main(int argc, char **argv){
                 if (n == 0) throw std::string("skipped");
                 auto x = indexesToCoords(g, idx);
                 auto y = tokens_for(g, idx.data(), n, epoch);
+                for(int i=0; i<n; i++) slots[o].delivered.insert(std::vector<int>(idx.begin() + (size_t) i * d, idx.begin() + (size_t) (i + 1) * d));
                 g.loadConstructedPoints(x, y);
             }else if (cmd == "setcoef"){
                 // overwrite coefficients with token-like integers (values are inferred by the library; for Global grids the coefficients are the values)
@@ -1201,9 +1228,9 @@ int main(int argc, char **argv){
                 int b, e; ls >> b >> e; A("b", jint(b)); A("e", jint(e));
                 TasmanianSparseGrid const &src = slots[3 - o].g;
                 g.copyGrid(src, b, e);
-                slots[o].obase = slots[3 - o].obase + std::max(b, 0);
-            }else if (cmd == "copyctor"){ TasmanianSparseGrid t(slots[3 - o].g); g = std::move(t); slots[o].obase = slots[3 - o].obase;
-            }else if (cmd == "assign"){ g = slots[3 - o].g; slots[o].obase = slots[3 - o].obase;
+                slots[o].obase = slots[3 - o].obase + std::max(b, 0); slots[o].delivered = slots[3 - o].delivered;
+            }else if (cmd == "copyctor"){ TasmanianSparseGrid t(slots[3 - o].g); g = std::move(t); slots[o].obase = slots[3 - o].obase; slots[o].delivered = slots[3 - o].delivered;
+            }else if (cmd == "assign"){ g = slots[3 - o].g; slots[o].obase = slots[3 - o].obase; slots[o].delivered = slots[3 - o].delivered;
             }else if (cmd == "rtswap"){ // continue on the object restored from a file image
                 int bin; ls >> bin; A("bin", jint(bin));
                 std::stringstream ss; g.write(ss, bin == 1);
@@ -1324,9 +1351,9 @@ int main(int argc, char **argv){
         }catch(std::runtime_error &e){ res = "runtime_error"; what = e.what();
         }catch(std::exception &e){ res = std::string("other:") + typeid(e).name(); what = e.what();
         }catch(...){ res = "other:unknown"; }
-        if (cmd == "make" && res == "ok") slots[o].obase = 0;
+        if (cmd == "make" && res == "ok"){ slots[o].obase = 0; slots[o].delivered.clear(); }
         // the grid outgrew the size the judge (and the observers' tolerances) are made for: the scenario ends before this event
-        for(int k=1; k<=2; k++) if (slots[k].g.getNumLoaded() + slots[k].g.getNumNeeded() > max_points) skip_rest = true;
+        for(int k=1; k<=2; k++) if (std::max(slots[k].g.getNumLoaded() + slots[k].g.getNumNeeded(), slots[k].g.getNumPoints()) > max_points) skip_rest = true;
         if (skip_rest) continue;
         args += "}";
         std::string obs = "{";
